@@ -694,3 +694,103 @@ pub async fn c11_unicode_names(addr: SocketAddr, certs: &Certs) -> std::result::
     }
     Ok((n, findings))
 }
+
+/// Several peers register on a topic nobody has used yet *at the same moment* (separate, already established
+/// connections, released by a barrier; the server runs on a multi-threaded runtime). Whichever registration creates
+/// the topic, every peer that is answered Ok must end up on the same router: a publisher that joins afterwards reaches
+/// every accepted subscriber, and a topic never accepts both messaging patterns.
+pub async fn concurrent_first_registrations(addr: SocketAddr, certs: &Certs, rounds: usize, id: u64) -> std::result::Result<(u64, Findings), String> {
+    let n = 10usize;
+    let w = Duration::from_secs(10);
+    let mut findings: Findings = vec![];
+    let mut evals = 0u64;
+    let mut conns: Vec<Arc<RawConn>> = vec![];
+    for round in 0..rounds {
+        if round % 25 == 0 {
+            // streams of earlier rounds linger on the server side (100 per connection)
+            conns.clear();
+            for _ in 0..n {
+                conns.push(Arc::new(raw_connect(addr, certs).await.map_err(|e| e.to_string())?));
+            }
+        }
+        let topic = format!("/l3race{}/fresh-{}", id, round);
+        let mixed = round % 3 == 2;
+        let barrier = Arc::new(tokio::sync::Barrier::new(n));
+        let mut tasks = vec![];
+        for k in 0..n {
+            let (c, b, t) = (conns[k].clone(), barrier.clone(), topic.clone());
+            let kind = if mixed && k % 2 == 1 { T_REG_REQ } else { T_REG_SUB };
+            tasks.push(tokio::spawn(async move {
+                let mut s = match WireStream::open(&c.conn).await {
+                    Ok(s) => s,
+                    Err(e) => return (kind, Err(e.to_string()), None),
+                };
+                b.wait().await;
+                if let Err(e) = s.write(&enc_register(kind, &t)).await {
+                    return (kind, Err(e), None);
+                }
+                let v = s.next(Duration::from_secs(10)).await;
+                (kind, Ok(v), Some(s))
+            }));
+        }
+        let mut subs: Vec<WireStream> = vec![];
+        let mut ok_kinds: Vec<u8> = vec![];
+        for t in tasks {
+            let (kind, v, s) = t.await.map_err(|e| e.to_string())?;
+            match v {
+                Ok(Next::Frame(WFrame::Ok)) => {
+                    ok_kinds.push(kind);
+                    if kind == T_REG_SUB {
+                        subs.push(s.unwrap());
+                    }
+                }
+                Ok(Next::Frame(WFrame::Error { .. })) => {}
+                Ok(other) => findings.push(("no-verdict/concurrent-first-registrations".into(), format!("round {}: a registration of kind {} on a fresh topic, sent together with {} others, was answered {:?}", round, kind, n - 1, other))),
+                Err(e) => return Err(format!("harness: {}", e)),
+            }
+        }
+        evals += 1;
+        if ok_kinds.iter().any(|k| *k == T_REG_SUB) && ok_kinds.iter().any(|k| *k == T_REG_REQ) {
+            findings.push((
+                "mixed-patterns-on-one-topic/concurrent-first-registrations".into(),
+                format!("round {}: {} subscribers and {} requestors that registered at the same moment on the fresh topic {} were all answered Ok", round, ok_kinds.iter().filter(|k| **k == T_REG_SUB).count(), ok_kinds.iter().filter(|k| **k == T_REG_REQ).count(), topic),
+            ));
+        }
+        if !subs.is_empty() && !ok_kinds.iter().any(|k| *k == T_REG_REQ) {
+            // a publisher joins afterwards; every accepted subscriber must get its messages
+            let cp = &conns[0];
+            let mut p = match WireStream::register(&cp.conn, T_REG_PUB, &topic, w).await {
+                Ok(p) => p,
+                Err(e) => {
+                    findings.push(("publisher-refused/concurrent-first-registrations".into(), format!("round {}: {}", round, e)));
+                    continue;
+                }
+            };
+            tokio::time::sleep(Duration::from_millis(30)).await;
+            let mut sent = vec![];
+            for i in 0..3 {
+                let b = body_for(i, 24, i == 2);
+                sent.push((i, b.len(), fnv(&b)));
+                p.write(&enc_message(None, &b)).await?;
+            }
+            let total = subs.len();
+            let mut bad = vec![];
+            for (k, s) in subs.into_iter().enumerate() {
+                let (got, how) = drain_sub(s, Duration::from_secs(3)).await;
+                if got != sent {
+                    bad.push(format!("subscriber {} received {} of 3 ({})", k, got.len(), how));
+                }
+            }
+            if !bad.is_empty() {
+                findings.push((
+                    "accepted-then-abandoned/concurrent-first-registrations".into(),
+                    format!("round {}: {} subscribers registered at the same moment on the fresh topic {} and were all answered Ok; a publisher that joined afterwards sent 3 messages: {}", round, total, topic, bad.join("; ")),
+                ));
+            }
+        }
+        if findings.len() >= 3 {
+            break;
+        }
+    }
+    Ok((evals, findings))
+}
